@@ -52,12 +52,30 @@ def mk_case(rng, kind, quick):
         if rng.random() < 0.5:
             # read-modify-write traffic: a write follows the read of the same iteration, to the same element or to the insertion staging area
             # (positions >= the shape; the shape is a multiple of every line size so that staging lines hold no regular element)
-            c["shape"] = shape = 16 if wide else 8
+            # (mostly a multiple of every line size, so that staging lines hold no regular element; sometimes not: a line that straddles the end of the rank)
+            c["shape"] = shape = (16 if wide else 8) if rng.random() < 0.7 else (15 if wide else 7)
             c["rows_w"] = [dict(r, w=1, pos=(r["pos"] if rng.random() < 0.7 else shape + rng.randint(0, 2))) for r in rows_r if rng.random() < 0.6]
             c["staged"] = 1 if c["rows_w"] else 0
         lines = [0, 0.5, 1, 1.5, 2, 3, 8]
         c["caps"] = [int(x * epl * 32) for x in lines]
     return c
+
+
+def mk_straddle(rng):
+    """cache traffic in which a line straddles the end of the rank: its first touch is a write to the insertion staging area (the line is pinned), a later
+    write addresses a regular element of the same line (which has to be written back)"""
+    epl = rng.choice([2, 4])
+    shape = 7
+    base = (shape // epl) * epl                 # first position of the straddling line
+    reg = rng.randint(base, shape - 1)          # a regular position in it
+    pts = [rng.randint(0, base - 1), reg, rng.randint(0, base - 1), reg, rng.randint(0, 6)]
+    rows_r = [{"stamp": [i], "coords": [p], "pos": p, "w": 0} for i, p in enumerate(pts)]
+    rows_w = [dict(rows_r[0], w=1, pos=shape + rng.randint(0, epl - (shape - base) - 1)), dict(rows_r[1], w=1, pos=reg)]
+    if rng.random() < 0.5:
+        rows_w.append(dict(rows_r[3], w=1, pos=rng.choice([reg, shape])))
+    lines = [0, 0.5, 1, 1.5, 2, 3, 8]
+    return {"kind": "cache", "order": NAMES[-1:], "tranks": NAMES[-1:], "mask": [1], "epl": epl, "shape": shape, "rows_r": rows_r, "rows_w": rows_w,
+            "slack": 0, "ev": "root", "evn": 0, "staged": 1, "caps": [int(x * epl * 32) for x in lines]}
 
 
 def mk_buffet2(rng):
@@ -116,6 +134,7 @@ def run(ctx):
         r["stats"]["generated"] += rc["stats"]["generated"]
     n = 250 if ctx.quick else 5000
     cases = [mk_case(rng, "buffet", ctx.quick) for _ in range(n)] + [mk_case(rng, "cache", ctx.quick) for _ in range(n)]
+    cases += [mk_straddle(rng) for _ in range(12 if ctx.quick else 200)]
     cases += [mk_filter(rng) for _ in range(n // 3)] + [mk_combine(rng) for _ in range(n // 3)] + [mk_buffet2(rng) for _ in range(n // 3)]
     part = family.run_family(ctx, "C17", cases, "harness.exec_buffer", "BufferTrace.tla", "BufferTrace.cfg",
                              op_of=lambda c, lg, st: c["kind"], where_of=lambda c, lg, st: where(c))
